@@ -370,6 +370,7 @@ func c18blockPos(p *Prog, b *ssa.BasicBlock) string {
 func checkC18(c *Check) {
 	lockBalanceRule(c, "C18", pMux)
 	c18Extra(c)
+	c18HandOverChannel(c)
 	c18R1(c, pSocks5, "socks5")
 	c18R1(c, pHTTP, "http")
 	c18R2(c)
